@@ -691,6 +691,9 @@ class TaskScenario(ScenarioData):
             previous_effort = self.doneEffort
 
             self.currentSlotIdx += delta
+            # The intra-slot offset of the dependency bound only applies to the slot the bound
+            # lies in; a task that first finds work in a later slot starts at that slot's beginning
+            self.slotStartOffset = 0.0
             if self.currentSlotIdx < lowerLimit or self.currentSlotIdx > upperLimit:
                 self.isRunAway = True
                 return False
